@@ -141,7 +141,9 @@ def run(chk):
                 "{Checked:: templates directly, *_assign_r on Checked_Number, overloaded operators}; 16/32/64 bit: operand tuples "
                 "solved for the boundary (and +-1, +-2) of each overflow guard of the model plus extremes, powers of two +-1 and "
                 "seeded noise. A case is non-trivial when it is distinct in (type, policy flags, api, operation, direction, "
-                "result word): distinct_nontrivial counts these classes as observed by the judge.")
+                "result word): distinct_nontrivial counts these classes as observed by the judge. Floats / mpz / mpq / conversions between all 12 numeric "
+                "types / all comparison entry points: exact-oracle stream of harness/run_checked_num.cc (operands at the representability boundaries of every "
+                "type, specials, denormals, dyadic rationals aimed at the rounding decision, seeded random); counted as one class per section.")
     chk.trusted += ["Coq 8.16.1 kernel (coqc), no axioms (Print Assumptions on every theorem of Properties_C11.v)",
                     "extraction with ExtrOcamlBasic only; OCaml 4.13.1; g++",
                     "hand-written transcription coq/Checked/{Int,Ext}.v of checked_int_inlines.hh / checked_ext_inlines.hh "
@@ -150,8 +152,8 @@ def run(chk):
                     "ocaml/judge_checked.ml, harness/run_bounded.cc"]
     chk.assumptions += ["the strict machine model (coq/Checked/Mach.v) evaluates each sub-expression in the operand type: it is an "
                         "abstraction of C++ integer promotion in the safe direction",
-                        "float / mpz / mpq primitives (checked_float_inlines.hh, checked_mpz_inlines.hh, checked_mpq_inlines.hh) "
-                        "are NOT modelled or proved",
+                        "float / mpz / mpq primitives, conversions between type pairs and the comparison entry points are NOT modelled or proved: "
+                        "exact oracle on generated operands only (long double not exercised)",
                         "bounded-coefficient clause for whole-library operations is checked by differential runs only; the theorem "
                         "bounded_never_lies covers programs over the ring operations of the coefficient interface"]
     t0 = time.time()
@@ -245,6 +247,43 @@ def run(chk):
         oracle_summary["%s/%s/%s" % (op, "signed" if sg == "1" else "unsigned", cls)] = {"count": a["count"], "why": dict(a["why"].most_common(3)), "bits": sorted(a["bits"])}
         chk.failure(info, {"example": a["example"], "count": a["count"]})
     chk.extra["oracle_failures"] = oracle_summary
+
+    # ---- floats, mpz, mpq, conversions between all type pairs, all comparison entry points: exact oracle only ----
+    nexe = retry(common.compile_harness, "run_checked_num.cc", config="mpz")
+    rc, nout = common.sh([nexe, str(chk.seed), "quick" if chk.quick else "thorough"], timeout=1500)
+    nagg, ncounts = {}, {}
+    for line in nout.splitlines():
+        if line.startswith("N "):
+            f = line.split()
+            if f[1] != "suppressed":
+                ncounts[f[1]] = int(f[-1])
+            else:
+                key = (f[2], f[6]) if len(f) >= 8 else (f[2], "other")
+                if key in nagg:
+                    nagg[key]["count"] += int(f[-1])
+        elif line.startswith("O "):
+            head, _, rest = line.partition(" | ")
+            f = head.split()
+            # O section op T1 T2 class dir
+            section, op, t1, t2, cls = f[1], f[2], f[3], f[4], f[5]
+            key = (section, cls) if cls != "other" and cls != "nan-operand" else (section, cls, op, t1, t2)
+            a = nagg.setdefault((section, cls) if len(key) == 2 else key, {"count": 0, "example": None, "ops": set()})
+            a["count"] += 1; a["ops"].add("%s(%s,%s)" % (op, t1, t2))
+            if a["example"] is None:
+                a["example"] = {"section": section, "op": op, "types": [t1, t2], "dir": f[6] if len(f) > 6 else "", "detail": rest[:600]}
+    if rc != 0 or "conv" not in ncounts:
+        chk.broken.append(("run_checked_num", "rc=%s\n%s" % (rc, nout[-1500:])))
+    num_summary = {}
+    for key, a in sorted(nagg.items(), key=lambda kv: str(kv[0])):
+        info = {"op": key[0], "class": key[1]}
+        if len(key) > 2:
+            info["entry"] = "%s(%s,%s)" % (key[2], key[3], key[4])
+        num_summary["/".join(str(k) for k in key)] = {"count": a["count"], "entries": sorted(a["ops"])[:8]}
+        chk.failure(info, {"example": a["example"], "count": a["count"]})
+    nev = sum(v for k, v in ncounts.items() if k in ("conv", "arith", "compare"))
+    chk.count(nev, key=("num-oracle", tuple(sorted(ncounts.items()))), sample={"exact-oracle stream (no model)": ncounts})
+    chk.extra["exact_oracle_float_gmp_compare"] = {"evaluations": ncounts, "failures": num_summary}
+    chk.log("float/mpz/mpq/conversion/comparison oracle: %s; failure classes: %s (%.1fs)" % (ncounts, sorted(num_summary), time.time() - t0))
 
     # ---- bounded-coefficient clause ----
     cfgs = ["int8"] if chk.quick else ["int8", "int16", "int32", "int64"]
